@@ -36,6 +36,16 @@ CHECKS = {
              "classes are restricted to the filtered glyph set. Rendering equality of remaining glyphs is not decided.",
         design_ref="DESIGN.md §5 C13", note=STATIC_NOTE,
         technique="static analysis: CFG dominance/path rules, sibling agreement, guard entailment over control-dependence facts"),
+    "C07": dict(
+        text="Static whole-package ownership / effect analysis on the inplace=False specialisation: 393 functions (416 call-site "
+             "variants), ~650 write events (attribute / subscript stores, deletions, mutator calls, pen acquisitions, setattr, "
+             "third-party in-place converters) each decided 'receiver owned' or 'receiver reachable from the ufo / ufos / "
+             "designSpaceDoc argument'; plus escape of borrowed objects into the working glyph set, copy completeness of "
+             "_copyGlyph/_copyLayer/from_layer, rememberCurveType-implies-inplace, and the linked obligations the analysis' "
+             "assumptions rest on. 8 genuine instances are listed known findings. Does not decide equality of source snapshots at run time.",
+        design_ref="DESIGN.md §5 C07, §3 E3", note=STATIC_NOTE + " Fields are keyed by (class family, attribute); two-level object abstraction; "
+             "unresolved callees are assumed not to mutate their arguments (count reported in evidence).",
+        technique="static analysis: interprocedural ownership/effect (taint) analysis with call-site specialisation, field sensitivity, flow-sensitive locals"),
 }
 
 _TODO = "check not built yet in this session (static rules designed in DESIGN.md §5; will be claimed when the rule set is armed)"
